@@ -327,4 +327,21 @@ theorem planner_sound_model (d : Doc) (hd : AllNumKV numOK d) (c : Crit) (hc : C
   rw [← (fieldRange_abs likeFn fnFam d f (flatten c) (flatten_ok c hc)).1, hr] at hs
   exact hs
 
+/-- The single index query of a plan scans `fieldRange f (flatten c)` for the selected field. -/
+theorem indexQuery_range (indexed : List Bytes) (c : Crit) (f : Bytes) (r : Range)
+    (h : indexQuery indexed (some c) = some (f, r)) : fieldRange f (flatten c) = some r := by
+  unfold indexQuery at h
+  simp only at h
+  split at h
+  · simp at h
+  · split at h
+    · simp at h
+    · rename_i g rest heq
+      cases hfr : fieldRange g (flatten c) with
+      | none => simp [hfr] at h
+      | some r' =>
+        simp only [hfr, Option.map_some, Option.some.injEq, Prod.mk.injEq] at h
+        rw [← h.1, ← h.2]; exact hfr
+
+
 end CV
